@@ -86,16 +86,16 @@ __CPROVER_ensures ((sndfile != NULL && !VALID_CALL) ==> (PSF->read_current == vi
 					&& PSF->last_op == vin_last_op && PSF->have_written == vin_have_written && g_codec_calls == 0 && g_seek_calls == 0 && g_hdr_calls == 0)) /*@C09.invalid_call_changes_nothing*/
 __CPROVER_ensures ((sndfile != NULL && VALID_CALL && !AT_END && !CAN_READ) ==> (__CPROVER_return_value == 0 && PSF->error == SFE_UNIMPLEMENTED)) /*@C09.unimplemented*/
 /* ---- end of data (C05) ---- */
-__CPROVER_ensures ((VALID_CALL && AT_END) ==> (__CPROVER_return_value == 0 && PSF->error == 0 && PSF->read_current == vin_rc && g_codec_calls == 0)) /*@C05.eof_returns_zero_no_error*/
+__CPROVER_ensures ((VALID_CALL && AT_END) ==> (__CPROVER_return_value == 0 && PSF->error == 0 && PSF->read_current == vin_rc && g_codec_calls == 0)) /*@C05.eof_returns_zero_no_error*/ /*@C06.eof_returns_zero_no_error*/
 __CPROVER_ensures ((VALID_CALL && AT_END && 0 <= g_idx && g_idx < ITEMS) ==> ptr [g_idx] == 0) /*@C05.eof_zero_fills_request*/
 /* ---- normal reads (C05, C06, C08) ---- */
-__CPROVER_ensures (0 <= __CPROVER_return_value && __CPROVER_return_value <= %(n)s || (%(n)s < 0 && __CPROVER_return_value == 0)) /*@C05.read_ret_range*/
+__CPROVER_ensures (0 <= __CPROVER_return_value && __CPROVER_return_value <= %(n)s || (%(n)s < 0 && __CPROVER_return_value == 0)) /*@C05.read_ret_range*/ /*@C15.ret_in_documented_range*/
 __CPROVER_ensures ((VALID_CALL && !AT_END && CAN_READ) ==> (RET_ITEMS %% CH == 0)) /*@C05.read_whole_frames*/
-__CPROVER_ensures ((VALID_CALL && !AT_END && CAN_READ) ==> (PSF->read_current == vin_rc + RET_ITEMS / CH)) /*@C05.read_position_advances_by_ret*/
-__CPROVER_ensures ((VALID_CALL && !AT_END && CAN_READ) ==> (PSF->read_current <= (vin_frames > vin_rc ? vin_frames : vin_rc))) /*@C05.read_never_past_end*/
+__CPROVER_ensures ((VALID_CALL && !AT_END && CAN_READ) ==> (PSF->read_current == vin_rc + RET_ITEMS / CH)) /*@C05.read_position_advances_by_ret*/ /*@C06.read_position_advances_by_ret*/ /*@C08.read_position_advances_by_ret*/ /*@C15.position_advances_by_returned_count*/
+__CPROVER_ensures ((VALID_CALL && !AT_END && CAN_READ) ==> (PSF->read_current <= (vin_frames > vin_rc ? vin_frames : vin_rc))) /*@C05.read_never_past_end*/ /*@C06.read_never_past_end*/
 __CPROVER_ensures ((VALID_CALL && !AT_END && CAN_READ && RET_ITEMS < ITEMS) ==>
-					(PSF->read_current == vin_frames || (g_codec_calls == 1 && g_codec_ret < ITEMS) || (g_codec_calls == 0 && g_seek_calls == 1 && PSF->error != 0))) /*@C05.read_short_only_at_end_or_io*/
-__CPROVER_ensures ((VALID_CALL && !AT_END && CAN_READ && 0 <= g_idx && g_idx < RET_ITEMS) ==> SAME_BITS (ptr [g_idx], %(UT)s) == (%(UT)s) g_item_bits) /*@C05.read_items_are_the_stream_items*/
+					(PSF->read_current == vin_frames || (g_codec_calls == 1 && g_codec_ret < ITEMS) || (g_codec_calls == 0 && g_seek_calls == 1 && PSF->error != 0))) /*@C05.read_short_only_at_end_or_io*/ /*@C15.read_short_only_at_end_or_io*/
+__CPROVER_ensures ((VALID_CALL && !AT_END && CAN_READ && 0 <= g_idx && g_idx < RET_ITEMS) ==> SAME_BITS (ptr [g_idx], %(UT)s) == (%(UT)s) g_item_bits) /*@C05.read_items_are_the_stream_items*/ /*@C06.read_items_are_the_stream_items*/
 __CPROVER_ensures ((VALID_CALL && !AT_END && CAN_READ) ==> g_codec_calls <= 1) /*@C05.read_one_codec_call*/
 __CPROVER_ensures ((VALID_CALL && !AT_END && CAN_READ && g_codec_calls == 1 && vin_last_op != SFM_READ) ==>
 					(g_seek_calls == 1 && g_seek_arg == vin_rc && g_seek_mode == SFM_READ)) /*@C08.read_reseeks_after_write*/
@@ -141,11 +141,11 @@ __CPROVER_ensures ((sndfile != NULL && !VALID_CALL) ==> (PSF->read_current == vi
 					&& g_codec_calls == 0 && g_seek_calls == 0 && g_hdr_calls == 0)) /*@C09.invalid_call_changes_nothing*/
 __CPROVER_ensures ((sndfile != NULL && VALID_CALL && !CAN_WRITE) ==> (__CPROVER_return_value == 0 && PSF->error == SFE_UNIMPLEMENTED)) /*@C09.unimplemented*/
 /* ---- writes (C05, C08, C04, C11) ---- */
-__CPROVER_ensures (0 <= __CPROVER_return_value && __CPROVER_return_value <= %(n)s || (%(n)s < 0 && __CPROVER_return_value == 0)) /*@C05.write_ret_range*/
+__CPROVER_ensures (0 <= __CPROVER_return_value && __CPROVER_return_value <= %(n)s || (%(n)s < 0 && __CPROVER_return_value == 0)) /*@C05.write_ret_range*/ /*@C15.ret_in_documented_range*/
 __CPROVER_ensures ((VALID_CALL && CAN_WRITE && WROTE) ==> RET_ITEMS %% CH == 0) /*@C05.write_whole_frames*/
-__CPROVER_ensures ((VALID_CALL && CAN_WRITE && WROTE) ==> (PSF->write_current == vin_wc + RET_ITEMS / CH)) /*@C05.write_position_advances_by_ret*/
-__CPROVER_ensures ((VALID_CALL && CAN_WRITE && !WROTE) ==> (__CPROVER_return_value == 0 && PSF->write_current == vin_wc && PSF->sf.frames == vin_frames)) /*@C05.failed_write_changes_no_position*/
-__CPROVER_ensures ((VALID_CALL && CAN_WRITE && WROTE) ==> (PSF->sf.frames == (PSF->write_current > vin_frames ? PSF->write_current : vin_frames))) /*@C08.frames_is_max_of_old_and_write_position*/
+__CPROVER_ensures ((VALID_CALL && CAN_WRITE && WROTE) ==> (PSF->write_current == vin_wc + RET_ITEMS / CH)) /*@C05.write_position_advances_by_ret*/ /*@C08.write_position_advances_by_ret*/ /*@C04.frames_accepted_are_counted*/ /*@C15.position_advances_by_returned_count*/
+__CPROVER_ensures ((VALID_CALL && CAN_WRITE && !WROTE) ==> (__CPROVER_return_value == 0 && PSF->write_current == vin_wc && PSF->sf.frames == vin_frames)) /*@C05.failed_write_changes_no_position*/ /*@C15.failed_write_changes_no_position*/
+__CPROVER_ensures ((VALID_CALL && CAN_WRITE && WROTE) ==> (PSF->sf.frames == (PSF->write_current > vin_frames ? PSF->write_current : vin_frames))) /*@C08.frames_is_max_of_old_and_write_position*/ /*@C04.frames_is_max_of_old_and_write_position*/
 __CPROVER_ensures ((VALID_CALL && CAN_WRITE && WROTE && RET_ITEMS < ITEMS) ==> g_codec_ret < ITEMS) /*@C05.write_short_only_when_io_fails*/
 __CPROVER_ensures ((VALID_CALL && CAN_WRITE && WROTE) ==> (PSF->have_written == SF_TRUE && PSF->last_op == SFM_WRITE)) /*@C04.have_written_latch*/
 __CPROVER_ensures ((VALID_CALL && CAN_WRITE && WROTE && vin_last_op != SFM_WRITE) ==> (g_seek_calls == 1 && g_seek_arg == vin_wc && g_seek_mode == SFM_WRITE)) /*@C08.write_reseeks_after_read*/
@@ -196,7 +196,7 @@ def rw_unit(kind, T, framesv, ch, tier):
         d["align_clause"] = ("__CPROVER_ensures ((sndfile != NULL && FILE_OK && len > 0 && %s && len %% CH != 0) ==> "
                              "(__CPROVER_return_value == 0 && PSF->error == %s)) /*@C09.misaligned_count*/" % (modeok, err))
     text = (HEAD % d) + ((READ_T if kind == "read" else WRITE_T) % d)
-    props = ["C05", "C09", "C08", "C19"] + (["C06"] if kind == "read" else ["C04", "C07", "C11"])
+    props = ["C05", "C09", "C08", "C15", "C19"] + (["C06"] if kind == "read" else ["C04", "C07", "C11"])
     return {"name": "sndfile.%s.ch%d" % (fn, ch), "props": props, "harness_text": text,
             "template": "units/gen_sndfile.py", "entry": "h_unit", "enforce": fn, "function": "sndfile.c:" + fn,
             "replace": ["psf_memset", "psf_file_valid"], "timeout": 600, "tier": tier,
